@@ -202,8 +202,8 @@ def gen_stimuli(consts):
     """Model-check one MC instance of SVecMC (or SVecOrder when consts has 'Order'); returns
     dict(path=stimuli file, generated, distinct, n).  Stimulus line: 'S <id> <fmode> | op ; op ; ...'."""
     if 'Order' in consts:
-        cfg = 'SPECIFICATION Spec\nCONSTANTS\n  Alphabet = %s\n  MaxLen = %d\nCHECK_DEADLOCK FALSE\n' % (
-            tla_const(consts['Alphabet']), consts['MaxLen'])
+        cfg = 'SPECIFICATION Spec\nCONSTANTS\n  Alphabet = %s\n  MaxLen = %d\n  Flt = %s\nCHECK_DEADLOCK FALSE\n' % (
+            tla_const(consts['Alphabet']), consts['MaxLen'], 'TRUE' if consts.get('Flt') else 'FALSE')
         return _tlc_stimuli('SVecOrder', cfg, consts)
     c = dict(MC_DEFAULTS)
     c.update(consts)
@@ -216,7 +216,7 @@ def gen_stimuli(consts):
 DRV_DEFAULTS = dict(NA=2, NB=2, ELEM=0, ALLOC=1, POCCA=0, POCMA=0, POCS=0, AE=0, CONSTRUCT=0, SIZET=64,
                     MAXSZ=0, SOCCC=0, VECTOR=0, SPACESHIP=0, GDB=0, std='c++17', cxx='g++', san=False, opt='-O1')
 
-ELEM_NAMES = ['NT', 'TM', 'MO', 'MOT', 'CO', 'TRIV', 'INT', 'MA', 'MC']
+ELEM_NAMES = ['NT', 'TM', 'MO', 'MOT', 'CO', 'TRIV', 'INT', 'MA', 'MC', 'FLT']
 
 
 def drv_name(c):
@@ -224,7 +224,7 @@ def drv_name(c):
     if c['ALLOC']:
         s += '-ca%dma%ds%dae%d' % (c['POCCA'], c['POCMA'], c['POCS'], c['AE'])
     if c['CONSTRUCT']:
-        s += '-ctor'
+        s += {1: '-ctor', 2: '-ctoronly', 3: '-dtoronly'}[c['CONSTRUCT']]
     if c['SIZET'] != 64:
         s += '-u%d' % c['SIZET']
     if c['MAXSZ']:
